@@ -42,10 +42,8 @@ def make_desc(rng, ptr):
                     idx = pos
                 vfuncs.append(dict(name="vf%d_%d" % (ti, k), index=idx, slot=pos))
                 pos += 1
-        for fi in range(rng.randint(1, 5)):
-            tname, s, a = rng.choice(TYPES)
-            if s is None:
-                s = a = ptr
+        def place(fname, tname, s, a, base=False):
+            nonlocal cur, maxal
             off = (cur + a - 1) // a * a
             if rng.random() < 0.3:
                 off += a * rng.randint(1, 2)
@@ -67,9 +65,19 @@ def make_desc(rng, ptr):
                     addr = off
             else:
                 addr = off if k < 0.3 else None
-            entries.append(("field", "f%d_%d" % (ti, fi), tname, addr, off, s))
+            entries.append(("field", fname, tname, addr, off, s, base))
             cur = off + s
             maxal = max(maxal, a)
+
+        # a base sub-object first (as C++ lays it out), possibly behind a gap: an earlier type of this module
+        if d["types"] and not own_vft and rng.random() < 0.4:
+            b = rng.choice(d["types"])
+            place("b%d" % ti, b["name"], b["total"], b["eff_align"], base=True)
+        for fi in range(rng.randint(1, 5)):
+            tname, s, a = rng.choice(TYPES)
+            if s is None:
+                s = a = ptr
+            place("f%d_%d" % (ti, fi), tname, s, a)
         nregions = (1 if own_vft else 0) + len(entries)
         align = None
         size = None
@@ -90,17 +98,24 @@ def make_desc(rng, ptr):
         else:
             cur_total = cur
         d["types"].append(dict(name="T%d" % ti, entries=entries, size=size, align=align, natural=cur, total=cur_total,
-                               vfuncs=vfuncs if own_vft else None))
+                               vfuncs=vfuncs if own_vft else None,
+                               eff_align=align if align is not None else (ptr if nregions != 1 else maxal)))
     for ei in range(rng.randint(0, 2)):
         cases = []
         v = -1
+        used = set()
         for k in range(rng.randint(1, 5)):
-            if rng.random() < 0.4:
-                v = v + rng.randint(1, 20)
+            if rng.random() < 0.4 or v + 1 in used:
+                # explicit values need not increase: an implicit successor continues from the LAST value
+                nv = v + rng.randint(1, 20) if rng.random() < 0.6 else rng.randint(0, 40)
+                while nv in used:
+                    nv += 1
+                v = nv
                 cases.append(("V%d" % k, v, True))
             else:
                 v += 1
                 cases.append(("V%d" % k, v, False))
+            used.add(v)
         d["enums"].append(dict(name="E%d" % ei, base=rng.choice(["u8", "i32", "u64"]), cases=cases))
     d["order"] = list(range(len(d["types"]) + len(d["enums"])))
     return d
@@ -126,6 +141,8 @@ def render(d, rng, spell_mode):
                 body.append("    _: unknown<%s>" % spell(rng, e[1], spell_mode))
             else:
                 pre = "#[address(%s)] " % spell(rng, e[3], spell_mode) if e[3] is not None else ""
+                if len(e) > 6 and e[6]:
+                    pre += "#[base] "
                 body.append("    %spub %s: %s" % (pre, e[1], e[2]))
         items.append(("#[%s]\n" % ", ".join(attrs) if attrs else "") + "pub type %s {\n%s\n}" % (t["name"], ",\n".join(body)))
     for e in d["enums"]:
@@ -177,6 +194,11 @@ def rewrites(d, rng):
         cands.append(("reorder",))
     cands.append(("respell",))
     rng.shuffle(cands)
+    # the gap / address spelling in front of a base sub-object is chosen first more often than chance would
+    if rng.random() < 0.7:
+        based = [c for c in cands if c[0] in ("gap_to_address", "address_to_gap", "address_explicit", "address_implicit")
+                 and len(d["types"][c[1]]["entries"][c[2]]) > 6 and d["types"][c[1]]["entries"][c[2]][6]]
+        cands = based + [c for c in cands if c not in based]
     done_idx = set()
     for c in cands[:rng.randint(1, 3)]:
         kind = c[0]
@@ -192,14 +214,14 @@ def rewrites(d, rng):
             ents = d["types"][ti]["entries"]
             e = ents[i]
             if kind == "address_explicit":
-                ents[i] = (e[0], e[1], e[2], e[4], e[4], e[5])
+                ents[i] = (e[0], e[1], e[2], e[4], e[4], e[5]) + tuple(e[6:])
             elif kind == "address_implicit":
-                ents[i] = (e[0], e[1], e[2], None, e[4], e[5])
+                ents[i] = (e[0], e[1], e[2], None, e[4], e[5]) + tuple(e[6:])
             elif kind == "gap_to_address":
-                ents[i] = (e[0], e[1], e[2], e[4], e[4], e[5])
+                ents[i] = (e[0], e[1], e[2], e[4], e[4], e[5]) + tuple(e[6:])
                 del ents[i - 1]
             else:
-                ents[i] = (e[0], e[1], e[2], None, e[4], e[5])
+                ents[i] = (e[0], e[1], e[2], None, e[4], e[5]) + tuple(e[6:])
                 ents.insert(i, ("gap", c[3]))
         elif kind == "natural_size":
             d["types"][c[1]]["size"] = d["types"][c[1]]["natural"]
